@@ -79,6 +79,8 @@ def sheet_content(spec, si):
     """dict (c,r)->code for sheet index si (1-based coords), blanks omitted."""
     sh = spec['sheets'][si]
     out = {}
+    if sh.get('empty'):
+        return out
     for r in range(1, sh['nrows'] + 1):
         for c in range(1, sh['ncols'] + 1):
             if [c, r] not in sh['blanks']:
@@ -103,24 +105,36 @@ def build(spec):
     host = spec['host']
     qs = []
     far = any(sh.get('far') for sh in spec['sheets'])
-    first_col = spec['sheets'][host]['ncols'] + 3
-    hostrows = max([r for (_, r) in contents[host]] + [1])
+    first_col = max(sh['ncols'] for sh in spec['sheets']) + 3
+    homes = []
+    expanded = []
     for q in spec['queries']:
+        expanded.append((q, host))
+        if q.get('also_on') is not None and q['ref']['sheet'] is None and q['also_on'] != host and not q.get('missing') \
+                and not spec['sheets'][q['also_on']].get('empty') and q['pos'] in ('bare', 'SUM', 'COUNT', 'MAX', 'INDEX', 'COLUMN', 'VLOOKUP'):
+            # the same text again on another sheet: an unqualified reference means the sheet of the formula
+            expanded.append((q, q['also_on']))
+    prev_home = host
+    for q, home in expanded:
+        homes += [prev_home] * (len(qs) - len(homes))
+        prev_home = home
         r = q['ref']
-        si = r['sheet'] if r['sheet'] is not None else host
+        si = r['sheet'] if r['sheet'] is not None else home
         r = dict(r)
         r['sheet_title'] = spec['sheets'][si]['title'] if q['ref']['sheet'] is not None else None
         if q.get('missing'):
             r['sheet_title'] = q['missing']
         content = contents[si]
         txt = ref_text(r)
-        stored_rows = max([rr for (_, rr) in content] + ([1] if si == host else [0]))
+        stored_rows = max([rr for (_, rr) in content] + ([1] if si in (host, home) or any(h == si for _, h in expanded) else [0]))
         if r['kind'] == 'cell':
             coords = [[(r['c0'], r['r0'])]]
         elif r['kind'] == 'cols':
             coords = [[(c, rr) for c in range(r['c0'], r['c1'] + 1)] for rr in range(1, stored_rows + 1)]
         else:
             coords = [[(c, rr) for c in range(r['c0'], r['c1'] + 1)] for rr in range(r['r0'], r['r1'] + 1)]
+        if not coords or not coords[0]:
+            continue    # whole columns of a sheet without rows
         flat = [val(content, c, rr) for row in coords for (c, rr) in row]
         nums = [v for v in flat if v is not F.BLANK]
         tcls = title_class(spec['sheets'][si]['title'])
@@ -147,7 +161,7 @@ def build(spec):
         elif pos == 'TWO':
             # a second reference (single cell, quoted where possible) in front of / behind this one
             o = q['other']
-            osi = o['sheet'] if o['sheet'] is not None else host
+            osi = o['sheet'] if o['sheet'] is not None else home
             ot = dict(o)
             ot['sheet_title'] = spec['sheets'][osi]['title'] if o['sheet'] is not None else None
             ov = val(contents[osi], o['c0'], o['r0'])
@@ -214,8 +228,12 @@ def build(spec):
         elif pos == 'COLUMN':
             if r['kind'] == 'cell' or (r['kind'] == 'area' and r['c0'] == r['c1']):
                 qs.append(Q(f'=COLUMN({txt})', r['c0'], 'COLUMN', nt, tags, meta=meta))
+    homes += [prev_home] * (len(qs) - len(homes))
+    for q_, h in zip(qs, homes):
+        if h != host:
+            q_.tags.append('formula-on-second-sheet')
     return {'sheets': sheets, 'queries': qs, 'sheet': spec['sheets'][host]['title'], 'first_col': first_col, 'ncols': 400,
-            'mode': 'entry' if far else 'whole'}
+            'mode': 'entry' if far else 'whole', 'on': [spec['sheets'][h]['title'] for h in homes]}
 
 
 def run_spec(spec, rec=None):
@@ -224,7 +242,7 @@ def run_spec(spec, rec=None):
     if not qs:
         return []
     outs = wbk.eval_formulas(b['sheets'], [q.formula for q in qs], sheet=b['sheet'], first_col=b['first_col'], ncols=b['ncols'],
-                             mode=b['mode'])
+                             mode=b['mode'], on=b['on'])
     fails = []
     for i, (q, o) in enumerate(zip(qs, outs)):
         if rec:
@@ -263,7 +281,7 @@ TITLES = {
     'cell-like': ['A1', 'XFD5', 'AB12'],
     'spaces': ['My Sheet', 'Q1 2024 plan', ' lead'],
     'punct': ['a-b', 'a.b', 'a(b)', 'a,b', 'q&a', 'x+y', 'p;q', '{z}', 'a=b', 'm%', '#tag', 'a"b'],
-    'leading-digit': ['2024', '1st'],
+    'leading-digit': ['2024', '1st', '0', '1', '2', '3', '1', '2'],
     'bang': ['a!b'],
     'apostrophe': ["it's"],
 }
@@ -289,8 +307,11 @@ def strategy():
             blanks = [[draw(st.integers(1, ncols)), draw(st.integers(1, nrows))] for _ in range(nblank)]
             sheets.append({'title': t, 'nrows': nrows, 'ncols': ncols, 'blanks': blanks})
         host = draw(st.integers(0, n - 1))
+        if n >= 3 and draw(st.integers(0, 2)) == 0:
+            e = draw(st.integers(0, n - 1).filter(lambda i: i != host))
+            sheets[e]['empty'] = True        # a sheet without any cell shifts nothing: later sheets keep their own cells
         if far_mode:
-            fs = draw(st.integers(0, n - 1))
+            fs = draw(st.integers(0, n - 1).filter(lambda i: not sheets[i].get('empty')))
             fc = draw(st.sampled_from([27, 52, 53, 702, 703, 1000, 16383, 16384, draw(st.integers(30, 16384))]))
             fr = draw(st.sampled_from([100, 1000, 9999, 10000, 99999, draw(st.integers(31, 99999))]))
             sheets[fs]['far'] = [[fc, fr], [fc - 1, fr], [fc, fr - 1]]
@@ -336,7 +357,15 @@ def strategy():
                  'shift': draw(st.sampled_from([0, 1, 1, -1]))}
             if q['shift'] and (ref['c0'] + q['shift'] < 1):
                 q['shift'] = 0
+            if si is None and not far_mode and draw(st.integers(0, 2)) == 0:
+                q['also_on'] = draw(st.integers(0, n - 1))
             queries.append(q)
+            if ref['kind'] == 'area' and pos in ('SUM', 'COUNT') and not far_mode and draw(st.integers(0, 3)) == 0:
+                # the same area text once per sheet (unqualified on the host, qualified elsewhere)
+                for osi2 in range(n):
+                    t2 = sheets[osi2]['title']
+                    queries.append({**q, 'also_on': None, 'ref': {**ref, 'sheet': None if osi2 == host else osi2,
+                                                                 'quoted': True if not can_unquote(t2) else draw(st.booleans())}})
         if draw(st.integers(0, 3)) == 0:
             for _ in range(2):
                 queries.append({'ref': {'sheet': 0, 'quoted': draw(st.booleans()), 'kind': draw(st.sampled_from(['cell', 'area'])), 'c0': 1, 'r0': 1,
